@@ -565,7 +565,17 @@ def check_case(ctx, case):
         ok = False
         ctx.fail(sig, case, what, expected=exp, observed=got)
     if "exc" in obs and obs["exc"] != "MarkupError":
-        bad("exception:" + obs["exc"], f"parse_directive_text raised {obs['exc']}: {obs.get('msg')}", "result or MarkupError", obs["exc"])
+        # signature by call site: which external let the exception through
+        site = obs["exc"]
+        if any(k.startswith("exc:") for (_b, k, _i) in obs["yam"]):
+            site = "yaml.safe_load"
+        elif any(k.startswith("exc:") for (_b, k, _h, _i) in obs["tok"]):
+            site = "options_to_items"
+        else:
+            pairs = [kv for (_b, _k, _h, items) in obs["tok"] for kv in items] + list((case.get("additional") or {}).items())
+            if any(k.startswith("exc:") for (_k, _v, k, _r) in conv_table(cls, pairs)):
+                site = "option-converter"
+        bad("exception:" + site, f"parse_directive_text raised {obs['exc']}: {obs.get('msg')}", "result or MarkupError", obs["exc"])
         return False
     exp_args = spec_args(cls, case["first"])
     if "exc" in obs:
@@ -751,6 +761,9 @@ KNOWN_WITNESSES = [
     {"cls": "docutils:note", "first": "", "content": ":class: x\nbody\n\n", "line": 0},
     {"cls": "docutils:note", "first": "", "content": "---\nclass: x\n---\nbody\n\n", "line": 0},
     {"cls": "docutils:note", "first": "", "content": "---\nclass: x\n---x\nbody", "line": 0},
+    # open finding exception:option-converter
+    {"cls": "docutils:figure", "first": "a.png", "content": ":figwidth:\n\nbody", "line": 0},
+    {"cls": "docutils:csv-table", "first": "", "content": ":quote:\n\na,b", "line": 0},
 ]
 
 
